@@ -278,3 +278,40 @@ def copy_opts(o):
     o.pop("user", None)
     o.get("report", {})
     return o
+
+
+def simulable(wn):
+    """the same model without the valve types WNTRSimulator does not support (PBV, GPV)"""
+    for v in ("V5", "V6"):
+        if v in wn.valve_name_list:
+            wn.remove_link(v, with_control=True)
+    return wn
+
+
+def simulable_models(tier):
+    out = []
+    for name, wn in all_models(tier):
+        if name.startswith("feature:"):
+            wn = simulable(wn)
+        elif any(v.valve_type in ("PBV", "GPV") for _, v in wn.valves()):
+            continue
+        out.append((name, wn))
+    return out
+
+
+def simulation_networks(tier):
+    """hydraulically meaningful networks for the simulation-based stand-ins (C11, C03)"""
+    root = repo_root()
+    rel = ["examples/networks/Net1.inp", "examples/networks/Net3.inp", "wntr/tests/networks_for_testing/Anytown.inp",
+           "wntr/tests/networks_for_testing/conditional_controls_1.inp", "wntr/tests/networks_for_testing/time_controls.inp",
+           "wntr/tests/networks_for_testing/tank_controls_1.inp", "wntr/tests/networks_for_testing/cv_controls.inp",
+           "wntr/tests/networks_for_testing/control_comb.inp", "wntr/tests/networks_for_testing/leaks.inp"]
+    if tier == "thorough":
+        rel += ["examples/networks/Net2.inp", "examples/networks/Net6.inp", "wntr/tests/networks_for_testing/tank_controls_2.inp",
+                "wntr/tests/networks_for_testing/conditional_controls_2.inp"]
+    out = []
+    for r in rel:
+        with warnings.catch_warnings():
+            warnings.simplefilter("ignore")
+            out.append((r, wntr.network.WaterNetworkModel(os.path.join(root, r))))
+    return out
